@@ -27,7 +27,7 @@ Full statement (NOT proved here):
   `theorem conc_gibbs : the Markov kernel  α ↦ (η ~ Beta(α+1, n); α' ~ mixture(η))  leaves the
    probability measure with density ∝ target a b K n invariant.`
 -- OBLIGATION-OPEN conc_gibbs: the measure-theoretic step "drawing each coordinate from its exact conditional density of a joint density leaves the marginal invariant" (Fubini / disintegration for continuous densities) is cited (Escobar & West 1995), not formalised; conc_gibbs_partial assembles every analytic ingredient of it
--- OBLIGATION-OPEN conc_floor: the code floors the Gamma draw at 1e-10 (`Conc.finish`); all statements here are about the uncensored draw — known finding F12
+-- OBLIGATION-OPEN conc_floor: the code floors the Gamma draw at 1e-10 (`Conc.finish`, both branches); all statements here are about the uncensored draw — known finding F12 for 1 <= K
 
 The floating-point evaluation, `np.log`, and scipy's samplers are outside the model. -/
 
